@@ -651,6 +651,8 @@ def run(tier):
     from . import c11 as _c11
     oblig.run_obligations(chk, _c11.asn1_sig_obligations())
     _c11.decode_mod_covers_source(chk)
+    from . import c10 as _c10
+    oblig.run_obligations(chk, _c10.signature_wrapper_obligations())
     from .c03 import hash_compare_shape
     hash_compare_shape(chk, S, 'verify_signature', 'x509-signature-hash-compare')
     chk.floor('rule instances', len(chk.obls), 35)
